@@ -27,7 +27,8 @@ type ImportLine struct {
 
 var importPkgs = []string{"java.util", "java.io", "org.ext.model", "org.ext.svc", "com.lib", "com.lib.sub"}
 var importNames = []string{"Widget", "Gadget", "Sprocket", "Lever", "Valve", "Gear", "Bolt", "Rivet", "Flange", "Piston", "Crank", "Shaft", "Pulley", "Spring", "Washer", "Gasket"}
-var roles = []string{"field", "param", "local", "generic", "annotation", "new", "static-receiver", "catch", "throws", "extends", "implements", "return"}
+var roles = []string{"field", "param", "local", "generic", "annotation", "new", "static-receiver", "catch", "throws", "extends", "implements", "return",
+	"static-field", "enum-constant", "method-ref", "nested-type", "static-chain", "cast", "instanceof", "array", "class-literal"}
 
 // GenImportProject draws 1..maxFiles files in a small directory tree.
 func GenImportProject(t *tape.Tape, maxFiles int) []ImportFile {
@@ -109,8 +110,11 @@ func genImportFile(t *tape.Tape, cls string, pkg string) ImportFile {
 					hasReturn = true
 				}
 			}
-			if isIface && (role == "field" || role == "local" || role == "new" || role == "static-receiver" || role == "catch") {
-				role = "param"
+			if isIface {
+				switch role {
+				case "field", "local", "new", "static-receiver", "catch", "static-field", "enum-constant", "method-ref", "nested-type", "static-chain", "cast", "instanceof", "array", "class-literal":
+					role = "param"
+				}
 			}
 			if role == "catch" || role == "throws" {
 				q += "Exception"
@@ -208,6 +212,35 @@ func genImportFile(t *tape.Tape, cls string, pkg string) ImportFile {
 		}
 		for _, s := range by("static-receiver") {
 			add(fmt.Sprintf("        %s.create();", s))
+		}
+		for i, s := range by("static-field") {
+			add(fmt.Sprintf("        int k%d = %s.MAX_SIZE;", i, s))
+		}
+		for i, s := range by("enum-constant") {
+			add(fmt.Sprintf("        Object e%d = %s.OPEN;", i, s))
+		}
+		for i, s := range by("method-ref") {
+			add(fmt.Sprintf("        Runnable r%d = %s::run;", i, s))
+		}
+		for _, s := range by("nested-type") {
+			add(fmt.Sprintf("        %s.Inner.value();", s))
+		}
+		for i, s := range by("static-chain") {
+			add(fmt.Sprintf("        long t%d = %s.SECONDS.toMillis(1);", i, s))
+		}
+		for i, s := range by("cast") {
+			add(fmt.Sprintf("        Object c%d = (%s) null;", i, s))
+		}
+		for _, s := range by("instanceof") {
+			add(fmt.Sprintf("        if (this instanceof %s) {", s))
+			add("            helper();")
+			add("        }")
+		}
+		for i, s := range by("array") {
+			add(fmt.Sprintf("        %s[] a%d = null;", s, i))
+		}
+		for i, s := range by("class-literal") {
+			add(fmt.Sprintf("        Object l%d = %s.class;", i, s))
 		}
 		for _, s := range by("static-call") {
 			add(fmt.Sprintf("        %s(1);", s))
